@@ -2,11 +2,15 @@
   C15 — the command registry is a consistent name/alias map.
   This file: the public `Commands` API.  The script-level commands (alias, unalias,
   remove_command, is_command_defined, fn): Props/C15Script.lean (theorems `C15_script_…`).
+  Props/C15Translated.lean: the methods of `impl Commands` as TRANSLATED from the current source
+  (Generated/RegistryFns.lean, over an abstract finite map) compute what this model computes
+  (theorems `C15_registry_translation_<method>`).
 -/
 import DuckModel.Registry
 import DuckModel.Lemmas.RegistryLemmas
 import DuckModel.Props.C15Script
 import DuckModel.Props.C15Dyn
+import DuckModel.Props.C15Translated
 
 namespace Duck
 
